@@ -16,8 +16,8 @@ if ! git -C "$W" apply "$D/patch.diff"; then echo "PATCH DOES NOT APPLY"; git -C
 PYTHONPATH="$W" timeout 1200 /venv/bin/python "$D/demo.py" >/dev/null 2>&1; echo "demo patched exit=$?"
 for P in "$@"; do
   cd /verif
-  VERIF_REPO="$W" VERIF_WORK=/verif/work/seeded VERIF_EVIDENCE=/verif/work/seeded/evidence ./check "$P" --tier ${TIER:-quick} > "$D/check-$P.log" 2>&1; rc=$?
+  VERIF_REPO="$W" VERIF_WORK=/verif/work/seeded-$$ VERIF_EVIDENCE=/verif/work/seeded-$$/evidence ./check "$P" --tier ${TIER:-quick} > "$D/check-$P.log" 2>&1; rc=$?
   echo "check $P exit=$rc violations=$(grep -c '^VIOLATION' "$D/check-$P.log") first: $(grep -m1 -A1 '^VIOLATION' "$D/check-$P.log" | tail -1 | cut -c1-160)"
 done
 git -C /repo worktree remove --force "$W"
-rm -rf /tmp/scratch/lead/nb-seed-a-$$ /tmp/scratch/lead/nb-seed-b-$$
+rm -rf /verif/work/seeded-$$ /tmp/scratch/lead/nb-seed-a-$$ /tmp/scratch/lead/nb-seed-b-$$
